@@ -6,6 +6,7 @@ package main
 // obligation is decided symbolically for all pairs of objects.
 
 import (
+	"sync"
 	"encoding/json"
 	"fmt"
 	"go/types"
@@ -58,7 +59,7 @@ func (cc *CheckCtx) runRel(rs relSpec) {
 	// floating-point operation (bit-vector tests, weight tables with literal leaves) must be equal.
 	termMu.Lock()
 	var atoms []*Term
-	okShape := lockstep(Ite(fr1.RetPC, r1, FPLit(0)), Ite(fr2.RetPC, r2, FPLit(0)), &atoms, map[[2]*Term]bool{})
+	okShape := lockstep(Ite(fr1.RetPC, r1, FPLit(0)), Ite(fr2.RetPC, r2, FPLit(0)), &atoms, nil)
 	goal := And(atoms...)
 	if !okShape {
 		termMu.Unlock()
@@ -174,12 +175,18 @@ func hasFPOp(t *Term, memo map[*Term]bool) bool {
 var fpOpMemo = map[*Term]bool{}
 
 // lockstep collects the equalities between corresponding FP-operation-free subterms of two equally
-// shaped terms; it returns false when the shapes differ.
+// shaped terms; it returns false when the shapes differ.  Subterms below an if-then-else are only
+// required to agree under the branch condition (of the first execution; the conditions themselves
+// are required to agree).
 func lockstep(x, y *Term, out *[]*Term, seen map[[2]*Term]bool) bool {
+	return lockstepG(x, y, True, out, map[[3]*Term]bool{})
+}
+
+func lockstepG(x, y, guard *Term, out *[]*Term, seen map[[3]*Term]bool) bool {
 	if x == y {
 		return true
 	}
-	k := [2]*Term{x, y}
+	k := [3]*Term{x, y, guard}
 	if seen[k] {
 		return true
 	}
@@ -188,16 +195,147 @@ func lockstep(x, y *Term, out *[]*Term, seen map[[2]*Term]bool) bool {
 		if x.Sort != y.Sort {
 			return false
 		}
-		*out = append(*out, Eq(x, y))
+		*out = append(*out, Implies(guard, Eq(x, y)))
 		return true
 	}
 	if x.Op != y.Op || len(x.Args) != len(y.Args) || x.Sort != y.Sort {
 		return false
 	}
+	if x.Op == "ite" {
+		if !lockstepG(x.Args[0], y.Args[0], guard, out, seen) {
+			return false
+		}
+		return lockstepG(x.Args[1], y.Args[1], And(guard, x.Args[0]), out, seen) &&
+			lockstepG(x.Args[2], y.Args[2], And(guard, Not(x.Args[0])), out, seen)
+	}
 	for i := range x.Args {
-		if !lockstep(x.Args[i], y.Args[i], out, seen) {
+		if !lockstepG(x.Args[i], y.Args[i], guard, out, seen) {
 			return false
 		}
 	}
 	return true
+}
+
+var relSpecFuns40 = []string{"mveq1_40", "mveq2_40", "mveq3_40", "mveq4_40", "mveq5_40", "mveq6_40", "dist1_40", "dist2_40", "dist36_40", "dist4_40", "noImpact40"}
+
+// runRel40: v4.0 Score depends only on the effective values (and not at all on the supplemental
+// metrics).  For each MacroVector the function is executed twice (both executions are in the same
+// MacroVector because related objects have equal macroVector() results by its contract) and the two
+// result terms are compared in lockstep.
+func (cc *CheckCtx) runRel40() {
+	w := cc.W
+	key := "40.(*CVSS40).Score"
+	cc.Funcs[key] = true
+	to := 60
+	if cc.Tier == "thorough" {
+		to = 300
+	}
+	type jb struct {
+		name   string
+		script string
+	}
+	var jobs []jb
+	var cutObs []struct {
+		fr *FuncRun
+		o  *Oblig
+		mv string
+	}
+	for i, e := range w.validMacroVectors() {
+		var rv []Value
+		for _, x := range e {
+			rv = append(rv, IntLit(int64(x)))
+		}
+		cr := map[string][]Value{"(CVSS40).macroVector": rv}
+		fr1 := w.RunFunc("40", "(*CVSS40).Score", RunOpts{ConcreteRet: cr, NoSafety: true, SkipPost: true, FreshBase: i * 100})
+		fr2 := w.RunFunc("40", "(*CVSS40).Score", RunOpts{ConcreteRet: cr, NoSafety: true, SkipPost: true, Suffix: "_b", FreshBase: i*100 + 50})
+		if fr1.Err != "" || fr2.Err != "" {
+			cc.ToolErr = append(cc.ToolErr, key+": "+fr1.Err+fr2.Err)
+			return
+		}
+		for _, o := range fr1.VC.Obligs {
+			if o.Kind == "cut" {
+				cutObs = append(cutObs, struct {
+					fr *FuncRun
+					o  *Oblig
+					mv string
+				}{fr1, o, mvLabel(e)})
+			}
+		}
+		a, b := recvTerm(fr1), recvTerm(fr2)
+		r1, r2 := fr1.RetVals[0].(*Term), fr2.RetVals[0].(*Term)
+		termMu.Lock()
+		assumes := []*Term{App("wf40", SBool, a), App("wf40", SBool, b), App("sameEffective40", SBool, a, b)}
+		// consequences of the relation at specification level, proved once as lemmas (below)
+		for _, f := range relSpecFuns40 {
+			srt := SInt
+			if f == "noImpact40" {
+				srt = SBool
+			}
+			assumes = append(assumes, Eq(App(f, srt, a), App(f, srt, b)))
+		}
+		assumes = append(assumes, fr1.VC.Assumes...)
+		assumes = append(assumes, fr2.VC.Assumes...)
+		var atoms []*Term
+		ok := lockstep(r1, r2, &atoms, nil)
+		if !ok {
+			termMu.Unlock()
+			cc.ToolErr = append(cc.ToolErr, key+": differently shaped executions for mv="+mvLabel(e))
+			return
+		}
+		script := ScriptFor(fr1.Prelude, assumes, And(atoms...), false)
+		termMu.Unlock()
+		jobs = append(jobs, jb{fmt.Sprintf("gocvss40.(*CVSS40).Score/rel/depends_only_on_effective_values[mv=%s]", mvLabel(e)), script})
+		if i == 0 {
+			for k := range fr1.VC.Inlined {
+				cc.Inlined[k] = true
+			}
+			for k := range fr1.VC.Modular {
+				cc.Modular[k] = true
+			}
+		}
+	}
+	// lemmas: related objects agree on every specification function the score is defined from
+	for _, f := range relSpecFuns40 {
+		cc.runLemma(Lemma{Name: "C10/lemma/same_effective_values_same_" + f, Pkg: "40",
+			Script: "(declare-const a CVSS40)\n(declare-const b CVSS40)\n(assert (wf40 a))\n(assert (wf40 b))\n(assert (sameEffective40 a b))\n(assert (not (= (" + f + " a) (" + f + " b))))\n"})
+	}
+	res := make([]ObResult, len(jobs)+len(cutObs))
+	var wg sync.WaitGroup
+	sem := make(chan struct{}, parallelism)
+	for i, j := range jobs {
+		wg.Add(1)
+		go func(i int, j jb) {
+			defer wg.Done()
+			sem <- struct{}{}
+			defer func() { <-sem }()
+			t0 := time.Now()
+			sr := Solve(j.script, filepath.Join(smtOutDir, "rel"), slug(j.name), to, nil)
+			r := ObResult{Name: j.name, Kind: "relational", Func: "(*CVSS40).Score", Pkg: "40", Solver: sr.Solver, Seconds: time.Since(t0).Seconds()}
+			switch sr.Status {
+			case "unsat":
+				r.Status = "proved"
+			case "sat":
+				r.Status = "refuted"
+				r.Model = sr.Output
+			default:
+				r.Status = "undischarged"
+				r.Output = sr.Output
+			}
+			res[i] = r
+		}(i, j)
+	}
+	// the cuts assumed inside each execution are obligations of this check as well
+	for i, c := range cutObs {
+		wg.Add(1)
+		go func(i int, fr *FuncRun, o *Oblig, mv string) {
+			defer wg.Done()
+			sem <- struct{}{}
+			defer func() { <-sem }()
+			oo := *o
+			oo.Name = o.Name + "[mv=" + mv + "]"
+			res[len(jobs)+i] = dischargeOne(fr, &oo, to)
+		}(i, c.fr, c.o, c.mv)
+	}
+	wg.Wait()
+	cc.Results = append(cc.Results, res...)
 }
